@@ -1,5 +1,77 @@
-(* C19 -- placeholder while the harness is brought up *)
+(* C19 -- A broker appends only to partitions whose lease it holds.
+   Only statements closed by [exact]; proofs live in proofs/LeaseProofs.v.
+
+   Model: model/Lease.v part 2 = the lease slice of handleProduce
+   (acquirePartitionLeases -> AcquireAll -> per-partition error-code mapping) on top of
+   the C18 lease-manager model.  Named assumption (event granularity): the request is
+   handled atomically with respect to lease state -- the Acquire calls of the request
+   run without other events in between ([acquire] chains the four steps of an Acquire
+   call).  The pre-state is ANY state reachable by ANY event list of part 1 (any number
+   of brokers, pending Release halves, stale acquire flights, expired sessions, ...).
+   An outcome is (response code, storage path entered); "entered = false" means neither
+   getPartitionLog nor AppendBatch nor Flush is called for that partition entry. *)
 From KS Require Import lib.Base lib.Strings lib.EtcdKV model.Lease proofs.LeaseProofs.
 Open Scope Z_scope.
-Example C19_nonvacuous : 1 = 1.
-Proof. reflexivity. Qed.
+
+Theorem C19_success_implies_lease : forall cfg env evs b req,
+  c_guard cfg = true -> pe_leasing env = true ->
+  let s := run cfg evs in
+  let s' := fst (produce cfg env s b req) in
+  forall t p i j out o,
+    nth_error req i = Some t -> nth_error (t_parts t) j = Some p ->
+    nth_error (snd (produce cfg env s b req)) i = Some out -> nth_error out j = Some o ->
+    let rid := partition_rid (t_topic t) (p_part p) in
+    (* (a) the storage path is entered only while this broker holds the lease: it owns
+           the partition, etcd stores its id under the lease key, no other broker owns it *)
+    (snd o = true ->
+       owns s' b rid = true /\ key_owner cfg s' rid = Some b /\
+       (forall b', owns s' b' rid = true -> b' = b)) /\
+    (* (b) a success code is returned only if the storage path was entered (hence (a))
+           and reported success *)
+    (pe_bp_code env <> 0 -> fst o = 0 -> snd o = true /\ p_down p = 0) /\
+    (* (c) a partition that another broker owns is refused with NOT_LEADER_OR_FOLLOWER
+           (or the retriable REQUEST_TIMED_OUT) and nothing is written *)
+    (forall b', b' <> b -> owns s b' rid = true ->
+       snd o = false /\
+       (t_allowed t = true -> pe_etcd_avail env = true ->
+        fst o = NOT_LEADER_OR_FOLLOWER \/ fst o = REQUEST_TIMED_OUT)).
+Proof. exact produce_safe. Qed.
+Print Assumptions C19_success_implies_lease.
+
+(* the decision rule of the per-partition check: every non-success lease result is mapped
+   to NOT_LEADER_OR_FOLLOWER (ErrNotOwner, ErrShuttingDown) or REQUEST_TIMED_OUT (anything
+   else) and the storage path is not entered *)
+Theorem C19_lease_error_code : forall env errs topic p a,
+  pe_etcd_avail env = true ->
+  alookup (partition_rid topic (p_part p)) errs = Some a ->
+  part_outcome env errs topic p =
+    (match a with ANotOwner | AShutdown => NOT_LEADER_OR_FOLLOWER | _ => REQUEST_TIMED_OUT end, false).
+Proof. exact part_outcome_lease_error. Qed.
+Print Assumptions C19_lease_error_code.
+
+(* an Acquire that reports success leaves the broker owning the resource; the state stays
+   inside the C18 invariant; nobody loses ownership through another broker's Acquire *)
+Theorem C19_acquire_ok_owns : forall cfg s b r,
+  let '(s', a) := acquire cfg s b r in
+  (c_guard cfg = true -> inv cfg s -> inv cfg s') /\ owned_mono s s' /\ (a = AOk -> owns s' b r = true).
+Proof. exact acquire_spec. Qed.
+Print Assumptions C19_acquire_ok_owns.
+
+(* non-vacuity: broker 1 owns orders/0, broker 2 owns orders/1, events/0 is free; one request
+   names all three (orders/0 twice, one undecodable batch): codes 0,6,0 / -1 and the storage
+   path is entered exactly for the partitions whose lease broker 1 holds afterwards *)
+Definition b1 : bytes := [49].
+Definition b2 : bytes := [50].
+Definition orders : bytes := [111;114;100;101;114;115].
+Definition events : bytes := [101;118;101;110;116;115].
+Definition acq (b r : bytes) : list event := [AcqBegin b r; AcqTxn b r; ReacqTxn b r; AcqCommitLocal b r].
+Example C19_nonvacuous :
+  let cfg := mkConfig [47; 112] true in
+  let env := mkPEnv true true true (-1) in
+  let s := run cfg (acq b1 (partition_rid orders 0) ++ acq b2 (partition_rid orders 1)) in
+  let req := [mkTItem orders true [mkPItem 0 0; mkPItem 1 0; mkPItem 0 0]; mkTItem events true [mkPItem 0 (-1)]] in
+  snd (produce cfg env s b1 req) = [[(0, true); (6, false); (0, true)]; [(-1, true)]] /\
+  owns (fst (produce cfg env s b1 req)) b1 (partition_rid events 0) = true /\
+  owns (fst (produce cfg env s b1 req)) b1 (partition_rid orders 1) = false /\
+  owns (fst (produce cfg env s b1 req)) b2 (partition_rid orders 1) = true.
+Proof. vm_compute. repeat split. Qed.
